@@ -42,15 +42,8 @@ BASELINE_OFF_CMD = ('cd /repo && cargo nextest run --workspace --no-fail-fast --
                     '--profile pb --test-threads 8 --offline || cargo test --workspace --no-fail-fast --offline')
 
 NOT_APPLICABLE = {
-    'C01': 'pending: U_ops unit under construction in this session',
-    'C02': 'pending: U_ops unit under construction in this session',
-    'C03': 'pending: U_ops unit under construction in this session',
-    'C04': 'pending: U_ops unit under construction in this session',
     'C05': 'pending: U_ops unit under construction in this session',
-    'C06': 'pending: U_ops unit under construction in this session',
     'C07': 'pending: U_ops unit under construction in this session',
-    'C10': 'pending: U_ops unit under construction in this session',
-    'C19': 'pending: U_ops unit under construction in this session',
     'C08': 'save/load behaviour is the serde derive expansion of five types plus hand-written serde impls of three '
            'dependency crates plus bincode (emap deserialises through a std HashMap); no function of sodg can carry a '
            'contract beyond "calls bincode::serialize"; Verus cannot see derive output or external crates, Kani cannot hold a Sodg',
@@ -67,7 +60,134 @@ NOT_APPLICABLE = {
     'C20': 'output built by format!/join over HashSet-guarded recursion; no contract within reach',
 }
 
+GRAPH_TRUSTED = [
+    'shim contracts of emap::Map (get/get_mut/insert/iter/iter_mut/with_capacity_some/clone), microstack::Stack '
+    '(new/from_vec/push/is_empty/len/clear/into_iter/clone) and micromap::Map (new/insert/clear/iter/clone): '
+    'specified over ghost views, not verified (bounded Kani audit in kani/deps)',
+    'axiom_itermut_resolved: slots an emap IterMut never yielded keep their value when the iterator is dropped',
+    'stricter borrow signatures in the shim (iter_mut(&mut self), into_iter(&self) with a lifetime) describe what those methods do',
+    'derive(PartialEq) on Label/Persistence is structural equality (Verus `Structural`)',
+    'Hex is opaque in this unit: Hex::empty() has the empty byte string, Hex::clone() keeps the byte string (proved for empty() in U_hex)',
+    'assume_specification <[T]>::to_vec',
+]
+
+SENSITIVE_SIZE = ('N', 'capacity', 'MAX_BRANCHES', 'MAX_BRANCH_SIZE', 'HEX_SIZE', 'size_of', 'size_of_val')
+SENSITIVE_NONDET = ('HashMap', 'HashSet', 'RandomState', 'rand', 'random', 'thread_rng', 'Instant', 'SystemTime',
+                    'thread', 'available_parallelism', 'env', 'addr', 'as_ptr', 'static', 'AtomicUsize', 'AtomicU64',
+                    'Cell', 'RefCell', 'Rc', 'Arc', 'Mutex', 'thread_local', 'lazy_static', 'unsafe', 'process', 'id')
+
+
+def sensitive_tokens(idents, which=SENSITIVE_SIZE + SENSITIVE_NONDET):
+    return sorted(t for t in idents if t in which)
+
+
+def classify_config_sensitive(which):
+    """C10/C19 rest on the functional step contracts. When such a contract fails, the property is violated only if
+    the function now consults a size parameter or a source of nondeterminism / shared state that it did not consult
+    on the unchanged tree; otherwise the failure belongs to C01-C06 and says nothing against determinism."""
+    def f(ctx, oid, meta, baseline):
+        unit, fn = oid.split('/')[0], oid.split('/')[1]
+        base = (baseline.get('sensitive::' + unit) or {}).get(fn)
+        now = None
+        for fd in meta['functions']:
+            if fd['id'] == fn:
+                now = sensitive_tokens(fd.get('idents', []), which)
+        if base is None or now is None:
+            return 'undecided', 'no baseline token list for %s' % fn
+        base = [t for t in base if t in which]
+        if now != base:
+            return 'violation', 'function %s now consults %s (unchanged tree: %s)' % (fn, now, base)
+        return 'undecided', ('functional contract of %s lost, but the function consults no size parameter / '
+                             'nondeterminism source it did not consult before: not evidence against this property '
+                             '(decided by C01-C06)' % fn)
+    return f
+
+
+def graph_prop(pid, technique, level_text, explanation, not_covered, extra=None):
+    d = dict(
+        units=['U_ops', 'U_model'], level='proof',
+        technique=technique, level_text=level_text, explanation=explanation, not_covered=not_covered,
+        trusted_base=GRAPH_TRUSTED,
+        level_note='Trusted: Verus/Z3; the container contracts in shim/ (emap, micromap, microstack: specified, not '
+                   'verified, Kani-audited within small bounds); derived PartialEq is structural; Hex opaque (view + '
+                   'empty/clone facts). Not covered: merge/slice/save+load/script callers, kids() (one-line wrapper), '
+                   'keys()/len()/next_id() bodies (closure-pattern iterator chains; see C05).',
+        design_ref='DESIGN.md §3-§4',
+        assumptions=['calls are within the limits and documented preconditions of the property quantifier (ids below the '
+                     'capacity, bind endpoints present and distinct, at most N labels, at most 16 members, a free group '
+                     'slot when two ungrouped vertices are bound): these are the `requires` of the contracts',
+                     'every graph state reached through empty()/add/bind/put/data/next_id/clone; merge()/join()/slice()/'
+                     'load() are outside the verified set'],
+    )
+    if extra:
+        d.update(extra)
+    return d
+
+
 PROPS = {
+    'C01': graph_prop(
+        'C01',
+        'contract-based deductive verification (Verus): representation invariant + functional step postconditions on the '
+        'extracted real add/bind/put/data/kid/empty/clone, trace lemmas by induction over histories',
+        'Unbounded proof: every state satisfying the invariant, every id, every N and capacity, every history (induction). '
+        'The code refines the step relations (U_ops); the step relations imply the property statement (U_model lemmas L01*).',
+        'wf is established by empty() and preserved by every operation; present-set can only shrink in the collecting arm of '
+        'data_step; lemmas: only a first read of a grouped vertex removes, it removes exactly the reader\'s group, none of the '
+        'removed holds an unread datum, ungrouped vertices are never removed, groups grow only by bind.',
+        ['slice, merge, save/load clauses (those functions are outside both verifiers)', 'kids() is a one-line wrapper taken on trust']),
+    'C02': graph_prop(
+        'C02',
+        'contract-based deductive verification (Verus): counter invariant stores[b] == #unread members, functional step '
+        'postconditions, panic-freedom = every callee precondition and machine-arithmetic obligation discharged',
+        'Unbounded proof over all histories; the independent reference model of the quantifier is the step relation itself '
+        '(derived from the statement), and L02 proves "collects <=> the last unread datum of the group is read".',
+        'the three bind join rules, data collects all members and nobody else iff the recount is zero, put counts once; no '
+        'unwrap/index/push/insert precondition or +=1/-=1 can fail within the limits.',
+        ['merge()/join() callers']),
+    'C03': graph_prop(
+        'C03',
+        'contract-based deductive verification (Verus): edge upsert / lookup / data-bytes postconditions with complete frames',
+        'Unbounded proof: bind = upsert at the old position or append, kid = lookup of the first matching label, data returns the '
+        'bytes of the last put in both arms, every other slot\'s edges and data are framed, including across collections.',
+        'kid-lookup, data-result, *-step frames; lemmas L03 (kid after bind for every vertex/label, frame of edges/data).',
+        ['kids() (one-line wrapper over micromap iter, trusted)', 'Hex byte strings are opaque here; both sides of the 8-byte '
+         'boundary are covered in U_hex (C15)']),
+    'C04': graph_prop(
+        'C04',
+        'contract-based deductive verification (Verus): two-case postcondition of add() (blank on an absent id, nothing on a '
+        'present id) with complete frame, for every wf state',
+        'Unbounded proof; covers recycled ids and ids from next_id() because the contract quantifies over every wf state.',
+        'add-step, add-wf, lemma L04.',
+        ['the callers slice_some/merge_rec benefit only by composition']),
+    'C06': graph_prop(
+        'C06',
+        'contract-based deductive verification (Verus): data() frees the slot (list empty, counter 0), bind() takes the least '
+        'free slot >= 2, sentinels keep slots 0/1 reserved; pigeonhole lemma over the 14 usable slots',
+        'Unbounded proof; history length is one induction step, so hundreds of cycles are covered by construction.',
+        'data-step (collecting arm), bind-step (first_free), empty-state (sentinels), lemmas L06 (slot returns, free slot exists '
+        'when fewer than 14 groups alive, no leaked slot, reserved slots never free).',
+        []),
+    'C10': graph_prop(
+        'C10',
+        'contract-based deductive verification (Verus): clone() postcondition (all four fields equal in the abstract view) + '
+        'functional step contracts => same future (lemma L19)',
+        'Proof for the copy being exact; "same subsequent behaviour" is the corollary that the step relations are functions of '
+        'the abstract state; independence rests on the trusted deep-copy contract of emap::Map::clone.',
+        'clone-equal on the real clone.rs; step clauses are premises (a failing step clause is a C10 violation only when the '
+        'function newly consults shared/nondeterministic state).',
+        ['independence of the two copies is value semantics of emap::Map::clone (trusted; Kani audit in the thorough tier)'],
+        extra=dict(classify=classify_config_sensitive(SENSITIVE_NONDET))),
+    'C19': graph_prop(
+        'C19',
+        'contract-based deductive verification (Verus): post-state and result of every core operation are functions of the '
+        'abstract pre-state and the arguments; those functions take no N / capacity parameter (limits occur only in requires)',
+        'Corollary of the functional contracts (lemma L19: equal abstract state + same call => equal abstract state and answer, '
+        'for any two edge capacities); the enumeration order of kids() is the edge SEQUENCE of the abstract state.',
+        'all *-step / result clauses are premises; a failing one is a C19 violation only when the function newly consults a size '
+        'parameter (N, capacity, MAX_*) or a nondeterminism source it did not consult on the unchanged tree.',
+        ['merge() and slice() (hash containers) are not covered', 'next_id() body: see C05'],
+        extra=dict(classify=classify_config_sensitive(SENSITIVE_SIZE + SENSITIVE_NONDET))),
+
     'C15': dict(
         units=['U_hex'], level='proof',
         technique='contract-based deductive verification (Verus on extracted src/hex.rs) + complete loop-free Kani '
